@@ -1,4 +1,6 @@
 import XmppModel.Model.Styling
+import XmppModel.Lemmas.Styling
+import XmppModel.Lemmas.StylingScanner
 import XmppModel.Generated.C17
 /-!
 # C17 — the styling decoder is lossless, chunk-independent and well-bracketed
@@ -17,5 +19,85 @@ theorem C17_gen_style_consts : Generated.C17.styleConsts = some styleConsts := b
 
 /-- the code fence literal -/
 theorem C17_gen_fence : Generated.C17.fence = some fence := by decide
+
+/-! ### Every call of the split function honours the `bufio.SplitFunc` contract
+
+`Dec.OK` (a decoder whose `quoteStarted` flag is set has an inner decoder, along the whole
+chain) is the invariant that excludes the nil dereferences in `scan` and `Quote`; it holds
+initially and is preserved by every call, whatever data the call is given. -/
+
+/-- the invariant holds for a fresh decoder and every call of `scan` preserves it -/
+theorem C17_invariant (d : Dec) (data : Bytes) (atEOF : Bool) (h : d.OK) :
+    Dec.OK {} ∧ (d.scan data atEOF).2.OK := by
+  refine ⟨Dec.ok_init, ?_⟩
+  cases data with
+  | nil =>
+    cases atEOF with
+    | true => exact (decScan_spec.nil_eof d h).2
+    | false =>
+      -- an empty window before EOF (never handed out by bufio.Scanner): handled like any other
+      have hr := scanLv_rel [] false false d.lv d.inner
+      exact (scanRel_chain hr h)
+  | cons b t => exact (decScan_spec.call_ok d (b :: t) atEOF h (by simp)).2
+
+/-- **prefix**: every result of `scan` is `more` or a token with `token = data[:advance]`,
+`0 < advance ≤ len(data)`; it never panics -/
+theorem C17_prefix (d : Dec) (data : Bytes) (atEOF : Bool) (h : d.OK) (hne : data ≠ []) :
+    match (d.scan data atEOF).1 with
+    | .more => True
+    | .panic => False
+    | .tok adv t => t = data.take adv ∧ 0 < adv ∧ adv ≤ data.length := by
+  have := (decScan_spec.call_ok d data atEOF h (List.length_pos_iff.mpr hne)).1
+  cases hr : (d.scan data atEOF).1 <;> simp_all [Out.Good]
+
+example : (Dec.scan {} [gt, 0x20, 0x61] true).1 = .tok 2 [gt, 0x20] := by decide
+
+/-- at EOF a non-empty window always yields a token (so nothing is left behind) -/
+theorem C17_eof_progress (d : Dec) (data : Bytes) (h : d.OK) (hne : data ≠ []) :
+    (d.scan data true).1 ≠ .more :=
+  decScan_spec.eof_tok d data h (List.length_pos_iff.mpr hne)
+
+/-! ### Termination and losslessness of a whole run, for every document and schedule -/
+
+/-- **terminates**: for every document, schedule and token limit the scanner run ends
+within the structural bound `fuelFor doc` (never `fuel`), without panic and without a
+contract violation of the split function; without a limit it ends with EOF -/
+theorem C17_terminates (limit : Option Nat) (sch : Schedule) (doc : Bytes) :
+    ((scanDoc limit sch doc).2 = .eof ∨ ((scanDoc limit sch doc).2 = .tooLong ∧ limit ≠ none)) ∧
+    (limit = none → (scanDoc limit sch doc).2 = .eof) := by
+  have h := scanDoc_ok limit sch doc
+  refine ⟨h.1, fun hl => ?_⟩
+  rcases h.1 with h1 | ⟨_, h2⟩
+  · exact h1
+  · exact absurd hl h2
+
+/-- **lossless**: whenever the run reaches EOF (always, without a token limit) the
+concatenation of the tokens is the document, for every schedule -/
+theorem C17_lossless (limit : Option Nat) (sch : Schedule) (doc : Bytes)
+    (h : (scanDoc limit sch doc).2 = .eof) : concatToks (scanDoc limit sch doc).1 = doc := by
+  exact (scanDoc_ok limit sch doc).2.1 h
+
+/-- the repaired `NewDecoder` sets no token limit: every document is decoded to the end,
+`Next`/`Quote` never dereference nil, and the data of the events (the virtual block quote
+end tokens are empty) concatenates to the document -/
+theorem C17_decoder_lossless (sch : Schedule) (doc : Bytes) :
+    (decode none sch doc).2 = .eof ∧
+    ∃ evs, (decode none sch doc).1 = some evs ∧ (evs.map (·.data)).flatten = doc := by
+  have hrun := scanDoc_ok none sch doc
+  have heof := (C17_terminates none sch doc).2 rfl
+  refine ⟨heof, ?_⟩
+  have hsome := events_isSome 0 (scanDoc none sch doc).1 (fun x hx => (hrun.2.2 x hx).1)
+  obtain ⟨evs, hevs⟩ := Option.isSome_iff_exists.mp hsome
+  refine ⟨evs, hevs, ?_⟩
+  rw [events_concat 0 _ evs hevs]
+  exact C17_lossless none sch doc heof
+
+/-- with a token limit (a caller's own `bufio.Scanner` around `styling.Scan()`) the only
+other outcome is `ErrTooLong`, and it does occur: one long line -/
+theorem C17_limit_witness :
+    (scanDoc (some 4) ⟨[1, 1, 1, 1, 1, 1], false⟩ [0x61, 0x61, 0x61, 0x61, 0x61, nl]).2 = .tooLong := by decide
+
+example : (decode none ⟨[1, 1, 1], true⟩ [gt, 0x20, 0x61]).1 =
+    some [⟨[gt, 0x20], BlockQuote ||| BlockQuoteStart, 1, none⟩, ⟨[0x61], BlockQuote, 1, none⟩] := by decide
 
 end XmppModel.Props.C17
